@@ -143,3 +143,37 @@ CHECKS = {
           "(sets stay sets, tuples tuples, int and enum keys keep their type) and leave the other fields at their defaults."),
     note="One level of generic containers as documented; Tuple fields hold tuples of the annotated length; the abstraction function is trusted."),
 }
+
+# ---- later additions to the deciding methods (kept as appendices so that the entries above stay readable)
+_ADD = {
+ "C01": (" + TLC trace validation (Trace_Conn clauses F_noeffect / F_window) of forged and damaged datagrams injected at random points of recorded connection histories",
+         " Forged datagrams are also injected into long recorded histories of two real endpoints and judged by Trace_Conn."),
+ "C03": (" + Trace_Server clause A_sealed (every server emission sealed once under the key in force) on slow-handshake executions of the real server",
+         " Server emissions during delayed handshakes are judged by Trace_Server!A_sealed."),
+ "C04": (" + TLC-enumerated network schedules (specs/Net.tla) executed on the real endpoints + lateness sweep across the window boundary",
+         " Every schedule of a small bounded space enumerated by TLC (Net.tla) and a sweep of datagram lateness across the 32-datagram boundary are executed on the real endpoints and judged by Trace_Conn."),
+ "C05": (" + TLC-enumerated network schedules (specs/Net.tla) executed on the real endpoints",
+         " Both sending APIs are driven over a grid of payload lengths and MTUs (Obs_Packing) and over TLC-enumerated schedules."),
+ "C06": (" + link-outage scenarios (total loss in one direction for longer than the ack time-out) + packing model and grid (specs/Packing.tla)",
+         " Scenarios include link outages longer than the resend interval and the ack time-out for every retry mode."),
+ "C07": (" + every schedule of a bounded space enumerated by TLC (specs/Net.tla) executed on the real endpoints and judged by Trace_Conn",
+         " TLC enumerates every fate assignment (deliver / lose / delay / duplicate ...) of the first datagrams of each side times six send plans; each schedule is executed on the real endpoints."),
+ "C08": (" + Apalache symbolic check of the ring laws at the real ring size (ApaSeqRing) + Trace_Conn ack-field clauses on recorded executions incl. datagrams damaged in transit (F_window) and a lateness sweep",
+         " The ring laws are also discharged symbolically by Apalache for all positions of the real 65535-ring; ack fields of real endpoints are judged by Trace_Conn on histories that cross the wrap, including damaged and forged datagrams, which must never enter the windows."),
+ "C09": (" + Packet.setMTU call histories judged by TLC (Obs_Packing!LimitsOK) + frame-hitch scenarios (more than 255 retries due in one frame)",
+         " setMTU is observed over call histories (the limits must be a function of the last call only)."),
+ "C10": (" + duplicate-delivering world with zombie scenarios (replays of a silent client's datagrams) + TLC exhaustive model checking of specs/Server.tla (token uniqueness, lifecycle) with a control configuration",
+         ""),
+ "C11": (" incl. well-formed headers spoofed from a live client's address (clause A_echo) and the no-amplification clause A_noamplify over half-open addresses",
+         ""),
+ "C12": (" + reconnect scenarios judged against a harness-owned record of the configured values + duplicate-delivering zombie scenarios (clause T_srvdrops)",
+         ""),
+ "C14": ("; the corpus includes nested collections that each announce the maximal length (amplification by nesting)", ""),
+ "C15": ("; the value alphabet includes ints beyond 2^53 as dictionary keys and container elements", ""),
+ "C16": ("", " Since round 3 of the seeded changes ':name+' against a path with an empty segment is specified as no match; '?' and '*' stay unspecified there."),
+ "C17": (" + call histories across working-directory changes with relative roots", " The function is also observed over call histories in which the working directory changes between calls with the same relative root."),
+ "C19": ("; the second hash of every password is made from exactly the application-visible PRNG state the first one started in", ""),
+}
+for _k, (_t, _x) in _ADD.items():
+    CHECKS[_k]["technique"] += _t
+    CHECKS[_k]["text"] += _x
